@@ -85,15 +85,18 @@ func getEventsPath(dir string) string {
 
 	// If plans.jsonl exists, use it
 	if _, err := os.Stat(plansPath); err == nil {
+		verifPoint("path.plans", plansPath)
 		return plansPath
 	}
 
 	// If events.jsonl exists, use it (backwards compatibility)
 	if _, err := os.Stat(oldPath); err == nil {
+		verifPoint("path.legacy", oldPath)
 		return oldPath
 	}
 
 	// Default to plans.jsonl for new files
+	verifPoint("path.default", plansPath)
 	return plansPath
 }
 
@@ -115,6 +118,7 @@ func readEvents(path string) ([]Event, error) {
 		return nil, err
 	}
 	defer file.Close()
+	verifPoint("read.open", path)
 
 	const maxEventLineBytes = 10 * 1024 * 1024
 
@@ -126,6 +130,7 @@ func readEvents(path string) ([]Event, error) {
 		}
 	}
 
+	verifPoint("read.probed", path)
 	var events []Event
 	scanner := bufio.NewScanner(file)
 	scanner.Buffer(make([]byte, 0, 64*1024), maxEventLineBytes)
@@ -164,6 +169,7 @@ func readEvents(path string) ([]Event, error) {
 		return nil, err
 	}
 
+	verifPoint("read.scanned", path)
 	if pending != nil {
 		// Tolerate a truncated final line (common after crashes or partial writes).
 		// Only ignore when the file does not end in '\n'.
@@ -201,9 +207,11 @@ func appendEvents(path string, events []Event) error {
 			return err
 		}
 		line := append(data, '\n')
+		verifPoint("append.before", path, string(line))
 		if err := writeAll(file, line); err != nil {
 			return err
 		}
+		verifPoint("append.after", path, string(line))
 	}
 	return nil
 }
@@ -232,12 +240,15 @@ func writeEventsFile(path string, events []Event) error {
 
 func replaceEventsAtomically(path string, events []Event) error {
 	tmpPath := path + ".tmp"
+	verifPoint("tmp.before", tmpPath)
 	if err := writeEventsFile(tmpPath, events); err != nil {
 		return err
 	}
+	verifPoint("rename.before", tmpPath, path)
 	if err := os.Rename(tmpPath, path); err != nil {
 		return err
 	}
+	verifPoint("rename.after", tmpPath, path)
 	return syncDir(filepath.Dir(path))
 }
 
@@ -275,6 +286,7 @@ func writeLinkEvent(dir string, opts GlobalOptions, eventType, from, to string) 
 	lockPath := filepath.Join(dir, "lock")
 	eventsPath := getEventsPath(dir)
 	return withLock(lockPath, syscall.LOCK_EX, func() error {
+		verifPoint("section", "LinkEdge", eventType, from, to)
 		graph, err := loadGraph(dir)
 		if err != nil {
 			return err
@@ -328,6 +340,7 @@ func createTask(dir string, opts GlobalOptions, epicID string, isEpic bool, titl
 func createTaskWithDir(dir string, opts GlobalOptions, lockPath, eventsPath, epicID string, isEpic bool, title, body string) (createOutput, error) {
 	var output createOutput
 	err := withLock(lockPath, syscall.LOCK_EX, func() error {
+		verifPoint("section", "CreateItem", epicID)
 		graph, err := loadGraph(dir)
 		if err != nil {
 			return err
@@ -507,6 +520,7 @@ func writeResultEvent(dir string, opts GlobalOptions, taskID, summary, relPath s
 	repoDir := filepath.Dir(dir)
 
 	return withLock(lockPath, syscall.LOCK_EX, func() error {
+		verifPoint("section", "AttachResult", taskID)
 		graph, err := loadGraph(dir)
 		if err != nil {
 			return err
